@@ -12,6 +12,7 @@ mod c07;
 mod c08;
 mod c09;
 mod c10;
+mod c20;
 mod c13;
 mod c14;
 mod c15;
@@ -45,6 +46,7 @@ fn main() {
         "c10" => c10::run(&args[2..], "c10"),
         "c11" => c10::run(&args[2..], "c11"),
         "c12" => c10::run(&args[2..], "c12"),
+        "c20" => c20::run(&args[2..]),
         "c05" => c05::run(&args[2..]),
         "c03" => c03::run(&args[2..]),
         "c04" => c04::run(&args[2..]),
